@@ -648,7 +648,10 @@ class Interp:
             try:
                 return getattr(v, name)
             except AttributeError:
-                raise PyRaise("AttributeError", node, f"'{type(v).__name__}' object has no attribute '{name}'")
+                if getattr(v, "CLOSED_WORLD", False):
+                    raise PyRaise("AttributeError", node, f"'{type(v).__name__}' object has no attribute '{name}'")
+                # a library object: what the model lacks is a gap of the model, not an error of the code under analysis
+                raise AnalysisAbort(f"{type(v).__module__.split('.')[-1]}.{type(v).__name__}.{name} is not modelled")
         if isinstance(v, slice):
             if name in ("start", "stop", "step"):
                 return getattr(v, name)
